@@ -108,7 +108,7 @@ int main(int argc, char **argv)
     auto alph = bgen::alphabet(T ? 3 : 2);
     std::vector<std::string> mem; for(auto &e : alph) { std::string m = e.bytes; m.append(16, '\0'); mem.push_back(m); }
     std::vector<std::vector<int>> seqs; bgen::sequences(alph.size(), 0, T ? 3 : 2, seqs);
-    { std::vector<std::vector<int>> longs; bgen::sequences(2, T ? 4 : 3, 8, longs); int sub[2] = {0, 6}; for(auto &s : longs) { std::vector<int> t; for(int k : s) t.push_back(sub[k]); seqs.push_back(t); } }
+    { std::vector<std::vector<int>> longs; bgen::sequences(2, T ? 4 : 3, 8, longs); int sub[2] = {0, (int)bgen::messages().size() + 1}; for(auto &s : longs) { std::vector<int> t; for(int k : s) t.push_back(sub[k]); seqs.push_back(t); } }
     vp::bound("bundle_sequences", (long long)seqs.size());
     for(size_t si = 0; si < seqs.size(); ++si, ++top) {
         if(!vp::mine(top)) continue;
